@@ -86,3 +86,26 @@ _amend("C18", "That M1 verifies for the right password only is numerical and not
 _amend("C05", "", "", _EX, " The tmp_aes_key / tmp_aes_iv expressions of generateTempKeys are extracted and compared with the key-exchange formulas.")
 _amend("C06", "", "", _EX, " The derived values of the exchange (temp keys, RSA payload and RSA step, both DH powers with one fresh exponent, auth_key, new_nonce_hash1, server_salt) are extracted as expressions and compared with the protocol's formulas; a fingerprint of the client's key anywhere in the server's list is accepted.")
 _amend("C07", "", "", _EX, " The value new_nonce_hash1 is compared with is the protocol's SHA1(new_nonce|0x01|SHA1(auth_key)[0:8])[4:20]; guards extracted into helpers or accumulated in a flag are recognised.")
+
+# --- rounds 5 and 6 -------------------------------------------------------------------------------------------
+_NN = "; non-nil analysis over a checked sticky-error discipline; call-graph cycle analysis with depth gates; write-set analysis of package-level state"
+_amend("C15", "Nil dereferences, recursion depth and exact memory proportionality are not decided.",
+       "Further decided: every method call on a reflect.TypeOf(y) result has y non-nil (boxed, nil-tested, or a field fed only by results used while the decoder's sticky error is clear - the discipline itself is checked: the error field is monotone, functions return nil only with it set); no dereference of a call's result where the same call's error is certainly set; every cycle of the decode region's call graph passes a depth gate (the nesting a peer imposes is bounded); nothing reachable from Decode/Marshal writes package-level state outside a lock. Other nil dereferences, the size of the depth bound and exact memory proportionality are not decided.", _NN)
+_amend("C16", "Liveness (blocking sends) and 'later requests complete' are not decided.",
+       "Further decided: the nil-reflect.Type rule of C15 over the whole receive region (40 sites; one accepted under the checked condition 'the decoder returns a nil object only with an error' and only for values that come from the decoder); every message the transport delivers is handed on and dispatched (no successful exit of readMsg or processResponse in front of the dispatch); error-path dereferences. Liveness (blocking sends) and 'later requests complete' are not decided.", _NN)
+_amend("C01", "", "", "; parameter write-set and ordering rules on the hint queue", " Also decided structurally: the hint queue is advanced before a hinted vector is read; Decode by naming a type with a hand-written decoder reads the constructor id first; a zero-length read is no read; enums are decoded by naming their type; the three hand-written wrappers are registered.")
+_amend("C02", "", "", "", " A present conditional group contains every one of its fields (emission decided by the flag bit alone, R02.G); the encoder's placeholder for the flags word sits at FlagIndex().")
+_amend("C03", "", "", "", " Behind the equal edge of the msg_key comparison no exit refuses the packet.")
+_amend("C05", "", "", "; write-set analysis of every []byte parameter of the package", " No function of the package writes through an input parameter (element stores, copy/cipher destinations, in-place append, transitive callees); the cipher never writes a field that holds a window of the input.")
+_amend("C06", "", "", "", " The padding of the client's DH message is 0..15 bytes for every data length (R06.A).")
+_amend("C07", "", "", "", " resPQ.pq is split only behind a primality test and a lower bound; a recover() on the exchange path must leave through a non-nil error; the service-mode reset is a session effect no differ edge may reach.")
+_amend("C08", "", "", "", " Every message a mode reader returns lives in a buffer made by that call (R08.O).")
+_amend("C09", "", "", "", " Every message the transport delivers reaches the dispatch (R09.I); the gzip loop keeps the bytes returned together with an error (R09.Z).")
+_amend("C10", "", "", "", " No message is dropped before the acknowledgement test (shared with C09 R09.I).")
+_amend("C11", "", "", "", " SaveSession hands the salt to the store on every path and the shipped file store writes whenever it reports success.")
+_amend("C12", "", "", "", " Load parses the whole file (no limited or buffered reader in between); file-system probes follow symbolic links.")
+_amend("C13", "", "", "", " No field carries the name of another parameter of its definition (same-typed neighbours swapped); the three wrapper methods send their own params struct on every path.")
+_amend("C14", "", "", "; comparison of the two rendered Obj-suffix predicates; access-path comparison of sorted slice and comparator", " The Obj suffix is decided by the same predicate where the struct is declared and where it is registered; every sort compares the elements it moves.")
+_amend("C17", "", "", "", " The waiter is registered before the request is written; the data-centre table of a client is a map made for that client.")
+_amend("C19", "", "", "", " The integers and buffers that hold a secret have crypto/rand as their only writer (a math/big method that writes the secret without reading it is reported).")
+_amend("C20", "", "", "", " The host recovered for a scheme-less link ends at the first slash; the error path does not dereference the nil URL.")
